@@ -16,6 +16,7 @@ pub struct WM {
     s: Option<WatermarkedStream>,
     n: u64,
     offered: usize,
+    seq: bool, // event n carries source "s" + j ones and a sequence number of 19-j ones, j = 1..18 (distinct pairs, same concatenation)
     unit: u64, // every time quantity of the spec (timestamp, delay, lateness) is multiplied by this many milliseconds
 }
 
@@ -23,7 +24,7 @@ pub const INF_LATENESS: u64 = 1_000_000; // the spec's "never drop late data" th
 
 impl WM {
     pub fn new(cfg: &Value) -> WM {
-        WM { s: None, n: 0, offered: 0, unit: cfg["unit"].as_u64().unwrap_or(1).max(1) }
+        WM { s: None, n: 0, offered: 0, unit: cfg["unit"].as_u64().unwrap_or(1).max(1), seq: cfg["seq"].as_bool().unwrap_or(false) }
     }
 }
 
@@ -68,7 +69,13 @@ impl Model for WM {
                 let wm0 = s.current_watermark().timestamp;
                 let mut d = HashMap::new();
                 d.insert("v".to_string(), RV::Integer(self.n as i64));
-                let r = s.add_event(mk_event(self.n, ts, "T", d));
+                let mut ev = mk_event(self.n, ts, "T", d);
+                if self.seq {
+                    let j = ((self.n - 1) % 18) as usize + 1;
+                    ev.metadata.source = format!("s{}", "1".repeat(j));
+                    ev.metadata.sequence = "1".repeat(19 - j).parse().unwrap();
+                }
+                let r = s.add_event(ev);
                 self.offered += 1;
                 let in_events = s.events().len() == ev0 + 1 && s.events().last().map(|e| e.id == id).unwrap_or(false);
                 let in_side = s.side_output().len() == side0 + 1 && s.side_output().last().map(|e| e.id == id).unwrap_or(false);
